@@ -766,7 +766,7 @@ Definition is_hidden_ov (v : overflow_v) : bool := match v with OvHidden => true
 Fixpoint styles_loop (decls : list declaration) (acc : list styledecl) (ovh hz : bool)
   : list styledecl :=
   match decls with
-  | [] => if hz && ovh then acc ++ [mksd SDisplayNone false] else acc
+  | [] => if hz && ovh then acc ++ [mksd (SDisplay true) false] else acc
   | d :: decls' =>
     let imp := d_important d in
     match d_data d with
@@ -774,8 +774,7 @@ Fixpoint styles_loop (decls : list declaration) (acc : list styledecl) (ovh hz :
     | DBackgroundColor r g b => styles_loop decls' (acc ++ [mksd (SBgColour r g b) imp]) ovh hz
     | DHeight z | DMaxHeight z => styles_loop decls' acc ovh (hz || z)
     | DOverflow v | DOverflowY v => styles_loop decls' acc (ovh || is_hidden_ov v) hz
-    | DDisplay true => styles_loop decls' (acc ++ [mksd SDisplayNone imp]) ovh hz
-    | DDisplay false => styles_loop decls' acc ovh hz
+    | DDisplay b => styles_loop decls' (acc ++ [mksd (SDisplay b) imp]) ovh hz
     | DWhiteSpace m => styles_loop decls' (acc ++ [mksd (SWhiteSpace m) imp]) ovh hz
     | DContent t => styles_loop decls' (acc ++ [mksd (SContent t) imp]) ovh hz
     | DUnknown => styles_loop decls' acc ovh hz
